@@ -299,12 +299,16 @@ class Arr:
 
     def __setitem__(self, key, val):
         if isinstance(key, Arr) and key.kind == "b":
+            if isinstance(val, MaskedSel) and (val.mask is key or _same_mask(val.mask, key)):
+                src = val.src_fn
+                self._write(lambda idx: key.get(idx), lambda idx: src(idx))
+                return
             if not isinstance(val, Arr):
                 v = as_sym(val)
                 self._write(lambda idx: key.get(idx), lambda idx: v)
                 return
             # a[mask] = b[mask] pattern: val must be a masked selection of same mask
-            if isinstance(val, MaskedSel) and val.mask is key:
+            if isinstance(val, MaskedSel) and (val.mask is key or _same_mask(val.mask, key)):
                 src = val.src_fn
                 self._write(lambda idx: key.get(idx), lambda idx: src(idx))
                 return
@@ -569,6 +573,16 @@ class MaskedSel:
     def size(self):
         m = self.mask
         return asum(unop(lambda s: ite(s, Sym(1), Sym(0)), m, "i")).item() if m.ndim else None
+
+
+def _same_mask(m1, m2):
+    """two boolean masks of the same shape that are provably equal element by element"""
+    if len(m1.shape_) != len(m2.shape_) or not all(same_extent(a, b) for a, b in zip(m1.shape_, m2.shape_)):
+        return False
+    qs = [Sym(z3.Int(fresh_name("q"))) for _ in m1.shape_]
+    rng = z3.And(*[z3.And(q.t >= 0, q.t < ext(e).t) for q, e in zip(qs, m1.shape_)]) if qs else z3.BoolVal(True)
+    a, b = m1.get(tuple(qs)), m2.get(tuple(qs))
+    return CTX.entails(z3.Implies(rng, a.t == b.t))
 
 
 def masked_select(a, mask):
@@ -1983,10 +1997,28 @@ def sh_round(x, n=None):
     return builtins.round(x, n) if n is not None else builtins.round(x)
 
 
-def sh_range(*args):
-    if any(isinstance(a, Sym) and a.concrete() is None for a in args):
+def concretize_small(x, limit=8):
+    """a symbolic integer that the path condition confines to a small range is decided per path
+    (one fork per value); anything else is outside the engine (loop needs an invariant)"""
+    if not isinstance(x, Sym):
+        return x
+    c = x.concrete()
+    if c is not None:
+        return c
+    lo = None
+    for b in range(-1, limit + 1):
+        if CTX.entails(x.t >= b):
+            lo = b
+    if lo is None or not CTX.entails(x.t <= limit):
         raise Outside("range() over a symbolic bound (loop needs an invariant)")
-    return builtins.range(*[a.__index__() if isinstance(a, Sym) else a for a in args])
+    for v in range(lo, limit + 1):
+        if bool(x == v):
+            return v
+    raise Outside("could not decide a small symbolic integer")
+
+
+def sh_range(*args):
+    return builtins.range(*[concretize_small(a) for a in args])
 
 
 class SymSet(list):
